@@ -15,7 +15,7 @@ trap 'git -C /repo checkout -- . ; [ -f /tmp/evidence.'$ID'.keep ] && mv /tmp/ev
 ./run.sh "$ID" quick > /tmp/mkr.out 2> /tmp/mkr.err
 RC=$?
 [ $RC -eq 1 ] || { echo "$ORIGIN: check $ID exit=$RC (no violation) - nothing saved"; exit 4; }
-CANDS=$(grep '^VIOLATION' /tmp/mkr.out | sed 's/.*replay=//' | xargs ls -S 2>/dev/null | tac)
+CANDS=$(grep -a '^VIOLATION' /tmp/mkr.out | sed 's/.*replay=//' | xargs ls -S 2>/dev/null | tac)
 KEEP=""
 for f in $CANDS; do
   grep -q '"family": *"worker-crash"' "$f" && continue
